@@ -51,6 +51,8 @@ def segment_env(env_spec, repo, tmpdir=None):
                scratch_base(), "fmsim-pyc-%s" % digest(repo)),
            "PYTHONDONTWRITEBYTECODE": "", "PYTHONWARNINGS": "ignore"}
     env.update(ENVS[env_spec.get("locale", "utf8")])
+    if env_spec.get("optimize"):
+        env["PYTHONOPTIMIZE"] = "1"      # python -O: assert statements are compiled away
     return env
 
 
@@ -95,13 +97,14 @@ def execute_replica(plan, ridx, repo):
             env_spec.update(replica.get("env", {}))
             disk_cfg = dict(seg.get("disk_cfg", {}))
             disk_cfg.update(replica.get("disk_cfg", {}))
-            env_tags = ["env.locale_" + env_spec.get("locale", "utf8"),
+            env_tags = ["env.locale_" + env_spec.get("locale", "utf8")] + (
+                ["env.python_O"] if env_spec.get("optimize") else []) + [
                         "env.default_encoding_" + str(disk_cfg.get("default_encoding", "utf-8"))]
             if disk_cfg.get("short_w"):
                 env_tags.append("env.short_writes")
             if disk_cfg.get("short_r"):
                 env_tags.append("env.short_reads")
-            if disk_cfg.get("mtime_mode", "real") != "real":
+            if disk_cfg.get("mtime_mode", "mono") != "mono":
                 env_tags.append("env.mtime_" + disk_cfg["mtime_mode"])
             job = {"scenario": plan["scenario"], "prop": plan.get("prop"),
                    "disk_root": os.path.join(root, "disk"),
@@ -111,7 +114,7 @@ def execute_replica(plan, ridx, repo):
                    "clock_ticks": ticks}
             # the run's private temporary directory: anything the library leaves in
             # tempfile.gettempdir() survives a restart of the run, never leaks into another run
-            tmpdir = os.path.join(root, "tmp")
+            tmpdir = os.path.join(root, "disk", ".tmp")   # on the simulated disk (clocked)
             os.makedirs(tmpdir, exist_ok=True)
             res = run_segment(job, env_spec, repo, plan.get("wall", 120), tmpdir)
             res["env_spec"] = env_spec
